@@ -13,15 +13,16 @@ import (
 func init() { corrTable["C15"] = func(r *Run) { connInChild(r, corrC15) } }
 
 var c15Terms = []string{"eof", "read-error", "read-timeout", "parent-cancel", "close-answered", "close-answered-early",
-	"close-unsolicited-behind-unbind_resp", "own-context"}
+	"close-unsolicited-behind-unbind_resp", "own-context", "read-error-mid-frame", "read-timeout-mid-frame", "close-write-fails"}
 
 func corrC15(r *Run) {
 	r.Import("Model.ConnRun")
 	r.PerShard(8)
-	r.Rule = "teardown placements: terminating event in {peer EOF, read error, read timeout (scripted and by the library's own read deadline), parent-context cancel, " +
+	r.Rule = "teardown placements: terminating event in {peer EOF, read error, read timeout (scripted and by the library's own read deadline; reported once or for good; between frames or inside a frame: in its header, right behind it, in its body), parent-context cancel, Close whose transport Write fails, " +
 		"Close with answered unbind (response after / before the Write returned / followed at once by an unsolicited PDU nobody receives), Close with unanswered unbind (1 s), " +
 		"keep-alive failure (enquire_link unanswered, then unbind answered or unanswered), keep-alive idle or in flight at peer EOF, a caller's own context} " +
-		"x 0..4 (and 17, 33, 65) outstanding Submit calls each with its Write held or returned x {no inbound traffic, unsolicited PDUs queued before the event, Watch blocked handing a PDU to an absent consumer}; " +
+		"x 0..4 (and 17, 33, 65) outstanding Submit calls each with its Write held or returned x {no inbound traffic, unsolicited PDUs queued before the event, Watch blocked handing a PDU to an absent consumer, a peer REQUEST carrying the sequence number of an outstanding Submit}; " +
+		"a Submit begun after the teardown; keep-alive whose transport Write fails, keep-alive over several ticks; " +
 		"first the minimised pre-repair witnesses (D27, D28, D28 at EOF, blocked delivery, repeated response); " +
 		"non-trivial = placements with at least one Submit blocked at the event; distinct by event list"
 	ts := pduTypes()
@@ -51,8 +52,26 @@ func corrC15(r *Run) {
 }
 
 type c15Sub struct {
-	c    *Call
-	held bool
+	c        *Call
+	held     bool
+	collided bool // the peer sent a PDU with this call's sequence number: the call may have returned it
+}
+
+// c15ReleaseHeld lets every open Write of the given Submits return, until none is open any more (a call may reach the
+// transport only once another's Write has returned).
+func c15ReleaseHeld(w *World, subs []*c15Sub, mark bool) {
+	for again := true; again && w.Stuck == ""; {
+		again = false
+		for _, s := range subs {
+			if w.Held(s.c) {
+				w.Release(s.c)
+				if mark {
+					s.held = false
+				}
+				again = true
+			}
+		}
+	}
 }
 
 // c15Common runs the checks every teardown shares: no panic, Done() closed, blocked Submit calls returned an error promptly.
@@ -72,6 +91,8 @@ func c15Common(r *Run, w *World, input, term string, subs []*c15Sub, t0 time.Tim
 		case !w.Returned(c):
 			r.Fail("submit-blocked/"+term, "a blocked Submit was not released by the teardown", input,
 				fmt.Sprintf("Submit seq=%d still blocked", c.Seq), "returns a non-nil error")
+		case c.Err == nil && s.collided && c.Resp != nil && pdu.ReadSequence(c.Resp) == c.Seq:
+			// by the sequence number that PDU was its response
 		case c.Err == nil:
 			r.Fail("submit-no-error/"+term, "a Submit released by the teardown returned nil", input, c.Class(), "non-nil error")
 		case !s.held && c.RetAt.Sub(t0) > promptly:
@@ -83,7 +104,9 @@ func c15Common(r *Run, w *World, input, term string, subs []*c15Sub, t0 time.Tim
 
 func c15Scenario(r *Run, ts []pduType, idx int, term string) {
 	rng := r.Rng
-	inflight := rng.Intn(3) // 0 none, 1 unsolicited PDUs queued before the event, 2 Watch blocked in a delivery nobody receives
+	// 0 none, 1 unsolicited PDUs queued before the event, 2 Watch blocked in a delivery nobody receives,
+	// 3 a request of the peer that carries the sequence number of an outstanding Submit
+	inflight := rng.Intn(4)
 	if term == "close-unsolicited-behind-unbind_resp" {
 		inflight = 0
 	}
@@ -98,6 +121,9 @@ func c15Scenario(r *Run, ts []pduType, idx int, term string) {
 	fresh := func() int32 { seq += int32(1 + rng.Intn(3)); return seq }
 	var subs []*c15Sub
 	k := rng.Intn(5)
+	if inflight == 3 && k == 0 {
+		k = 1 + rng.Intn(4)
+	}
 	for g := 0; g < k; g++ {
 		c := w.Go(g, CallSpec{Kind: "submit", Seq: fresh(), P: genSendable(rng, ts, true, 600)})[0]
 		s := &c15Sub{c: c, held: true}
@@ -119,8 +145,25 @@ func c15Scenario(r *Run, ts []pduType, idx int, term string) {
 		w.Peer(fs, cs)
 	case 2:
 		w.Peer([][]byte{genUnsolicited(rng, ts, fresh())}, nil) // gated consumer, no grant: Watch stays in the send
+	case 3:
+		// the peer numbers its own requests itself: one of them carries the number of an outstanding Submit.
+		// Whatever the connection makes of it, that Submit still ends with its context and with the connection.
+		x := subs[rng.Intn(len(subs))]
+		x.collided = true
+		var f []byte
+		switch rng.Intn(4) {
+		case 0: // ... or an undecodable frame does (answered by generic_nack; the Submit stays outstanding)
+			f = genBadFrame(rng, ts, x.c.Seq)
+			c15ReleaseHeld(w, subs, true) // (no caller Write is open when the generic_nack is due: see c16.go)
+		case 1: // ... or a response PDU of a type that does not answer the request
+			f = genUnsolicited(rng, ts, x.c.Seq)
+		default:
+			f = expectedFrame(genSendable(rng, ts, true, 600), x.c.Seq)
+		}
+		w.Peer([][]byte{f}, [][]int{genCuts(rng, len(f))})
 	}
 	needWatch := true
+	closeFails := false
 	t0 := time.Now()
 	var cl *Call
 	switch term {
@@ -129,7 +172,31 @@ func c15Scenario(r *Run, ts []pduType, idx int, term string) {
 	case "read-error":
 		w.PeerEnd(errScriptedReset)
 	case "read-timeout":
-		w.PeerEnd(timeoutErr{})
+		if rng.Bool() {
+			w.PeerEndOnce(timeoutErr{}) // a timeout is reported once; the transport itself is still there
+		} else {
+			w.PeerEnd(timeoutErr{})
+		}
+	case "read-error-mid-frame", "read-timeout-mid-frame":
+		// the transport fails while Watch is inside a frame: in its header, right behind it, in its body
+		var f []byte
+		for len(f) < 20 {
+			f = genUnsolicited(rng, ts, fresh())
+		}
+		cut := []int{16, 16, 17 + rng.Intn(len(f)-17), 17 + rng.Intn(len(f)-17), 1 + rng.Intn(15)}[rng.Intn(5)]
+		if term == "read-timeout-mid-frame" {
+			w.PeerTrunc(f, cut, timeoutErr{}, rng.Intn(3) != 0)
+		} else {
+			w.PeerTrunc(f, cut, errScriptedReset, rng.Bool())
+		}
+	case "close-write-fails":
+		// the unbind cannot be written: Close returns the error; it cancels the connection all the same
+		cl = w.Go(100, CallSpec{Kind: "close", Seq: fresh(), WriteFails: true})[0]
+		if !w.Returned(cl) {
+			c15ReleaseHeld(w, subs, true) // (the unbind waits for the transport behind an open Write)
+		}
+		needWatch = inflight == 2
+		closeFails = true
 	case "parent-cancel":
 		w.CancelParent()
 		needWatch = inflight == 2 // parked in Read it cannot notice; blocked in the delivery it must
@@ -139,6 +206,9 @@ func c15Scenario(r *Run, ts []pduType, idx int, term string) {
 		}
 	case "close-answered", "close-answered-early", "close-unsolicited-behind-unbind_resp":
 		cl = w.Go(100, CallSpec{Kind: "close", Seq: fresh()})[0]
+		if !w.Written(cl) {
+			c15ReleaseHeld(w, subs, true) // (the unbind waits for the transport behind an open Write)
+		}
 		resp := frameOf(&pdu.UnbindResp{Header: pdu.Header{Sequence: cl.Seq}})
 		switch term {
 		case "close-answered":
@@ -156,20 +226,43 @@ func c15Scenario(r *Run, ts []pduType, idx int, term string) {
 		}
 	case "own-context":
 		// a caller's own context ends: that caller returns, the others stay; then EOF ends the rest
-		if len(subs) > 0 {
-			x := subs[rng.Intn(len(subs))]
+		var open []*c15Sub
+		was := map[*c15Sub]bool{}
+		for _, o := range subs {
+			if w.Returned(o.c) {
+				was[o] = true // (it took the peer's colliding request for its response)
+			} else {
+				open = append(open, o)
+			}
+		}
+		if len(open) > 0 {
+			x := open[rng.Intn(len(open))]
+			for _, o := range open {
+				if o.collided {
+					x = o
+				}
+			}
 			tc := time.Now()
 			w.CancelCtx(x.c)
 			if x.held {
 				w.Release(x.c)
 				x.held = false
 			}
+			if !w.Returned(x.c) && !w.Written(x.c) {
+				// on its way to the transport behind another caller's open Write: like a call inside its own Write
+				// it goes on once the transport lets it
+				c15ReleaseHeld(w, subs, true)
+				if w.Held(x.c) {
+					w.Release(x.c)
+				}
+			}
 			input := "sched " + w.Script()
-			if !w.Returned(x.c) || x.c.Err == nil || x.c.RetAt.Sub(tc) > promptly {
+			tookIt := x.collided && x.c.Err == nil && x.c.Resp != nil && pdu.ReadSequence(x.c.Resp) == x.c.Seq
+			if !w.Returned(x.c) || (x.c.Err == nil && !tookIt) || x.c.RetAt.Sub(tc) > promptly {
 				r.Fail("submit-outlives-context", "a Submit call outlived its own context", input, x.c.Class(), "returns ctx.Err() promptly")
 			}
 			for _, o := range subs {
-				if o != x && w.Returned(o.c) {
+				if o != x && !was[o] && w.Returned(o.c) {
 					r.Fail("submit-foreign-context", "cancelling one caller's context released another caller", input, o.c.Class(), "blocked")
 				}
 			}
@@ -183,9 +276,13 @@ func c15Scenario(r *Run, ts []pduType, idx int, term string) {
 		t0 = time.Now()
 	}
 	// callers whose Write is still open go on once it returns and then see the closed connection
-	for _, s := range subs {
-		if s.held && w.Held(s.c) {
-			w.Release(s.c)
+	c15ReleaseHeld(w, subs, false)
+	// a Submit begun after the teardown: its frame may still reach the transport; it returns an error
+	var late *Call
+	if rng.Intn(3) == 0 && w.Stuck == "" && w.doneClosed() {
+		late = w.Go(200, CallSpec{Kind: "submit", Seq: fresh(), P: genSendable(rng, ts, true, 300)})[0]
+		if w.Held(late) {
+			w.Release(late)
 		}
 	}
 	input := "sched " + w.Script()
@@ -197,7 +294,14 @@ func c15Scenario(r *Run, ts []pduType, idx int, term string) {
 		return
 	}
 	c15Common(r, w, input, term, subs, t0, needWatch)
-	if cl != nil {
+	if late != nil && (!w.Returned(late) || late.Err == nil) {
+		r.Fail("submit-after-teardown/"+term, "a Submit begun after the teardown did not return an error", input, late.Class(), "non-nil error")
+	}
+	if cl != nil && closeFails {
+		if !w.Returned(cl) || cl.Err == nil {
+			r.Fail("close-result/"+term, "Close whose unbind could not be written did not return the error", input, cl.Class(), "non-nil error")
+		}
+	} else if cl != nil {
 		if !w.Returned(cl) || cl.Err != nil {
 			r.Fail("close-result/"+term, "Close with an answered unbind did not return nil", input, cl.Class(), "nil")
 		}
@@ -237,6 +341,12 @@ func c15Many(r *Run, ts []pduType, idx, k int, term string) {
 	if w.Held(last.c) {
 		w.Release(last.c)
 	}
+	if !w.Returned(last.c) && !w.Written(last.c) {
+		c15ReleaseHeld(w, subs, true) // (it waits for the transport behind another caller's open Write)
+		if w.Held(last.c) {
+			w.Release(last.c)
+		}
+	}
 	pre := "sched " + w.Script()
 	if w.Stuck == "" {
 		if !w.Returned(last.c) || last.c.Err == nil || last.c.RetAt.Sub(tc) > promptly {
@@ -258,15 +368,14 @@ func c15Many(r *Run, ts []pduType, idx, k int, term string) {
 		w.CancelParent()
 	default:
 		cl = w.Go(5000, CallSpec{Kind: "close", Seq: 9000})[0]
+		if !w.Written(cl) {
+			c15ReleaseHeld(w, subs, true)
+		}
 		w.Release(cl)
 		t0 = time.Now()
 		w.PeerPDU(&pdu.UnbindResp{Header: pdu.Header{Sequence: 9000}})
 	}
-	for _, s := range subs {
-		if s.held && w.Held(s.c) {
-			w.Release(s.c)
-		}
-	}
+	c15ReleaseHeld(w, subs, false)
 	input := "sched " + w.Script()
 	r.Count(input, true, "many/"+label)
 	if runStuck(r, w, input) {
@@ -276,7 +385,7 @@ func c15Many(r *Run, ts []pduType, idx, k int, term string) {
 	if cl != nil && (!w.Returned(cl) || cl.Err != nil || !w.T.IsClosed()) {
 		r.Fail("close-result/many", fmt.Sprintf("Close with %d requests outstanding did not complete its answered unbind", k), tail(input, 900), cl.Class(), "nil, transport closed")
 	}
-	r.Case(fmt.Sprintf("many %s %.120s", label, input), w.CaseExpr(connVariant))
+	r.Case(fmt.Sprintf("many#%d %s %.120s", idx, label, input), w.CaseExpr(connVariant))
 }
 
 // Close whose unbind goes unanswered: after its one-second timeout Done() is closed and blocked Submits are released.
@@ -291,10 +400,13 @@ func c15CloseUnanswered(r *Run, ts []pduType, idx int) {
 		w.Release(c)
 		subs = append(subs, &c15Sub{c: c})
 	}
-	cl := w.Go(100, CallSpec{Kind: "close", Seq: 99})[0]
-	w.Release(cl)
 	tStart := time.Now()
-	w.WaitUntil(3*time.Second, func() bool { return w.Returned(cl) })
+	cl := w.Go(100, CallSpec{Kind: "close", Seq: 99})[0]
+	// One forced group from the return of the unbind's Write to the end of Close's own one-second context: no
+	// snapshot is taken in between, so it does not matter how the controller's progress relates to that timer
+	// (on a loaded machine the second may be over before the Write is released).
+	w.ReleaseNoSync(cl)
+	w.WaitUntil(6*time.Second, func() bool { return w.Returned(cl) })
 	t0 := time.Now()
 	w.force(fmt.Sprintf("CancelCtx %d", cl.ID)) // the one-second timeout of Close is the end of its own context
 	w.sync()
@@ -306,13 +418,14 @@ func c15CloseUnanswered(r *Run, ts []pduType, idx int) {
 	if !w.Returned(cl) || cl.Err == nil {
 		r.Fail("close-result/close-unanswered", "Close with an unanswered unbind did not return an error", input, cl.Class(), "non-nil error after about one second")
 	} else if d := cl.RetAt.Sub(tStart); d < 800*time.Millisecond || d > 2500*time.Millisecond {
+		// (a note, not a verdict: the bound is the library's timer plus the machine's load)
 		r.Notes = append(r.Notes, "Close with unanswered unbind returned after "+d.String())
 	}
 	for _, s := range subs { // released by the cancel Close always performs; measured from Close's return
 		s.held = false
 	}
 	c15Common(r, w, input, "close-unanswered", subs, t0.Add(-50*time.Millisecond), false)
-	r.Case("close-unanswered "+input, w.CaseExpr(connVariant))
+	r.Case(fmt.Sprintf("close-unanswered#%d %s", idx, input), w.CaseExpr(connVariant))
 }
 
 // keep-alive failure: the enquire_link is never answered; the loop closes the connection and has to return.
@@ -322,25 +435,33 @@ func c15KeepAliveFailure(r *Run, idx int, answerUnbind bool) {
 	w.StartWatch()
 	sub := w.Go(0, CallSpec{Kind: "submit", Seq: 10, P: &pdu.SubmitSM{}})[0]
 	w.Release(sub)
-	w.KeepAlive(time.Hour, 30*time.Millisecond, 50, 51)
+	kaTimeout := 30 * time.Millisecond
+	if relaxed {
+		kaTimeout = 150 * time.Millisecond
+	}
+	w.KeepAlive(time.Hour, kaTimeout, 50, 51)
 	ping := w.KaCall("ping", 50)
 	w.sync()
-	w.Release(ping)
-	// the library's own 30 ms timeout ends the enquire_link; the loop then calls Close: the unbind reaches the transport
-	ok := w.WaitUntil(3*time.Second, func() bool { return w.T.NWrites() >= 3 })
+	// One forced group from the return of the enquire_link's Write over the end of its context (the library's own
+	// timeout) to the unbind of the Close the loop then calls: no snapshot in between, so the observation does not
+	// depend on whether that timer fires before or after the controller releases the Write.
+	w.ReleaseNoSync(ping)
+	ok := w.WaitUntil(6*time.Second, func() bool { return w.T.NWrites() >= 3 })
 	w.force(fmt.Sprintf("CancelCtx %d", ping.ID))
 	cl := w.KaCall("kaclose", 51)
 	w.sync()
 	term := "keepalive-failure-unbind-unanswered"
 	t0 := time.Now()
 	if ok {
-		w.Release(cl)
 		if answerUnbind {
+			w.Release(cl)
 			term = "keepalive-failure-unbind-answered"
 			t0 = time.Now()
 			w.PeerPDU(&pdu.UnbindResp{Header: pdu.Header{Sequence: 51}})
 		} else {
-			w.WaitUntil(3*time.Second, func() bool { return w.doneClosed() })
+			// again one group: Write returns ... Close's own second ends
+			w.ReleaseNoSync(cl)
+			w.WaitUntil(6*time.Second, func() bool { return w.doneClosed() })
 			t0 = time.Now()
 			w.force(fmt.Sprintf("CancelCtx %d", cl.ID))
 			w.sync()
@@ -362,7 +483,7 @@ func c15KeepAliveFailure(r *Run, idx int, answerUnbind bool) {
 	}
 	c15Common(r, w, input, term, []*c15Sub{{c: sub}}, t0.Add(-50*time.Millisecond), answerUnbind)
 	if w.KaReturned() {
-		r.Case(term+" "+input, w.CaseExpr(connVariant))
+		r.Case(fmt.Sprintf("%s#%d %s", term, idx, input), w.CaseExpr(connVariant))
 	}
 }
 
@@ -414,7 +535,7 @@ func c15KeepAliveEOF(r *Run, idx int, idle bool) {
 	}
 	c15Common(r, w, input, term, nil, t0, true)
 	if w.KaReturned() {
-		r.Case(term+" "+input, w.CaseExpr(connVariant))
+		r.Case(fmt.Sprintf("%s#%d %s", term, idx, input), w.CaseExpr(connVariant))
 	}
 }
 
@@ -437,7 +558,7 @@ func c15ReadDeadline(r *Run, ts []pduType, idx int) {
 		return
 	}
 	c15Common(r, w, input, "read-deadline", []*c15Sub{{c: c}}, t0.Add(-50*time.Millisecond), true)
-	r.Case("read-deadline "+input, w.CaseExpr(connVariant))
+	r.Case(fmt.Sprintf("read-deadline#%d %s", idx, input), w.CaseExpr(connVariant))
 }
 
 // ---------------------------------------------------------------- pre-repair witnesses
@@ -457,7 +578,7 @@ func c15Witnesses(r *Run) {
 					fmt.Sprintf("close=%s watch_returned=%v done=%v panics=%v", cl.Class(), w.WatchReturned(), w.doneClosed(), ps),
 					"Close returns nil, Watch returns without panic, Done() closed")
 			}
-			r.Case("witness D27 "+input, w.CaseExpr(connVariant))
+			r.Case("witness-D27 "+input, w.CaseExpr(connVariant))
 		}
 		w.Shutdown()
 	}
@@ -474,7 +595,7 @@ func c15Witnesses(r *Run) {
 				r.Fail("watch/blocked-delivery-at-teardown", "Watch blocked handing a PDU to PDU() does not notice the teardown", input,
 					fmt.Sprintf("watch_returned=%v panics=%v", w.WatchReturned(), w.Panics()), "Watch returns")
 			}
-			r.Case("witness blocked-delivery "+input, w.CaseExpr(connVariant))
+			r.Case("witness-blocked-delivery "+input, w.CaseExpr(connVariant))
 		}
 		w.Shutdown()
 	}
@@ -496,7 +617,7 @@ func c15Witnesses(r *Run) {
 					"deliver_sm 300 is delivered, Watch returns on EOF")
 			}
 			_ = c // its Write stays open: released now it would find both its response and the closed connection ready
-			r.Case("witness D32 "+input, w.CaseExpr(connVariant))
+			r.Case("witness-D32 "+input, w.CaseExpr(connVariant))
 		}
 		w.Shutdown()
 	}
